@@ -4,11 +4,12 @@
    Ties (equal priorities) make Peek/Pop nondeterministic; a queue built from an initial list holds
    each distinct key once with one of the priorities listed for it. *)
 EXTENDS Integers, Sequences, FiniteSets, TLC, Json, BagIter
-CONSTANTS Keys, Prios, NIter, Inits
+CONSTANTS Keys, Prios, NIter, Inits, PDiv   \* the order given to the queue compares p \div PDiv (PDiv > 1: distinct priorities that tie)
 VARIABLES pm, bits, op
 Absent == 0
 Present(f) == {k \in Keys : f[k] # Absent}
-MinKeys(f) == {k \in Present(f) : ~\E j \in Present(f) : f[j] < f[k]}
+PC(p) == p \div PDiv
+MinKeys(f) == {k \in Present(f) : ~\E j \in Present(f) : PC(f[j]) < PC(f[k])}
 KeyBag(f) == [k \in Keys |-> IF f[k] # Absent THEN 1 ELSE 0]
 Iters == 1..NIter
 AllAR == [i \in Iters |-> BitAddRemove(bits[i], Keys)]
